@@ -7,7 +7,7 @@ from .state import State, dtype, key_alloc, key_card
 I = z3.IntSort()
 
 PURE_BUILTINS = {'len', 'range', 'isinstance', 'int', 'str', 'bool', 'min', 'max', 'abs', 'all', 'any', 'divmod', 'tuple',
-                 'old', 'implies', 'fresh', 'seq', 'dom', 'unchanged', 'type', 'iff', 'card', 'content', 'ite', 'is_none', 'val', 'prefix'}
+                 'old', 'implies', 'fresh', 'seq', 'dom', 'unchanged', 'type', 'iff', 'card', 'content', 'ite', 'is_none', 'val', 'prefix', 'cast'}
 STR_METHODS = {'isupper': BOOL, 'islower': BOOL, 'upper': STR, 'lower': STR, 'startswith': BOOL, 'endswith': BOOL,
                'count': INT, 'isidentifier': BOOL, 'isdigit': BOOL, 'strip': STR, 'lstrip': STR, 'rstrip': STR,
                'encode': STR, 'decode': STR, 'find': INT, 'isalnum': BOOL, 'isalpha': BOOL, 'replace': STR, 'join': STR}
@@ -91,7 +91,10 @@ class CallMixin:
             for recv, s in self.ev(f.value, st):
                 yield from self.call_method(recv, f.attr, e, s)
             return
-        _unsup('call form %s' % ast.unparse(f), e)
+        # any other callee expression (e.g. table[key](x)): a first-class value
+        for fv, s in self.ev(f, st):
+            yield from self.call_value(fv, e, s)
+        return
 
     def ev_args(self, e, st):
         exprs = list(e.args) + [k.value for k in e.keywords]
@@ -151,7 +154,7 @@ class CallMixin:
                 'tuple': ['tuple'], 'bool': ['bool'], 'frozenset': []}
         if k == 'opt':
             return z3.And(z3.Not(opt_is_none(v)), self.isinstance1(opt_val(v), cn, st, node))
-        if cn in prim and k != 'any' and k != 'obj':
+        if cn in prim and k not in ('any', 'obj', 'text'):
             return z3.BoolVal(k in prim[cn])
         if k == 'none':
             return z3.BoolVal(False)
@@ -165,7 +168,8 @@ class CallMixin:
         if k == 'any':
             return z3.Function('any_is_' + cn, AnyS, z3.BoolSort())(v.z)
         if k == 'text' and cn in ('str', 'bytes'):
-            return z3.Function('text_is_' + cn, TextS, z3.BoolSort())(v.z)
+            isb = self.reg.specfuns['ISBYTES'].z3fun(v.z) if 'ISBYTES' in self.reg.specfuns else z3.Function('text_is_bytes', TextS, z3.BoolSort())(v.z)
+            return isb if cn == 'bytes' else z3.Not(isb)
         if k == 'obj':
             return z3.BoolVal(False)
         _unsup('isinstance(%r, %s)' % (v.ty, cn), node)
@@ -259,18 +263,21 @@ class CallMixin:
 
     # ---- spec-only
     def bi_old(self, e, st):
+        """old(e): e evaluated in the pre-state heap; names are the contract's parameters (callee bindings at a call site,
+        entry values for the function's own contract); bound variables and result/exc/out stay visible"""
         if not self.specmode:
             _unsup('old() in code', e)
         o = self.spec_old
         scratch = o.copy()
-        for k, v in st.env.items():          # bound variables / result stay visible, state is the old one
-            if k not in scratch.env or k.startswith('_') or k in ('result', 'exc', 'out'):
-                scratch.env.setdefault(k, v)
-        for k in self.quant_vars(st):
-            scratch.env[k] = st.env[k]
-        saved = self.spec_old
+        explicit = getattr(self, 'spec_env', None)
+        if explicit is not None:
+            scratch.env = dict(explicit)
+        for k, v in st.env.items():
+            if k not in scratch.env:
+                scratch.env[k] = v
+        n0 = len(scratch.pc)
         v = self.ev1(e.args[0], scratch)
-        st.assume(*scratch.pc[len(o.pc):])
+        st.assume(*scratch.pc[n0:])
         yield v, st
 
     def quant_vars(self, st):
@@ -304,6 +311,15 @@ class CallMixin:
         v = self.seq_of(self.ev1(e.args[0], st), st)
         k = self.ev1(e.args[1], st)
         yield SeqV(v.elem, v.arr, k.z), st
+
+    def bi_cast(self, e, st):
+        """cast(x, ClassName): view a dynamically typed value as an instance (spec only; guard with isinstance)"""
+        v = self.ev1(e.args[0], st)
+        cn = e.args[1].id
+        if v.ty.kind == 'any':
+            yield self.from_any(v, TObj(cn)), st
+        else:
+            yield SV(TObj(cn), (opt_val(v) if v.ty.kind == 'opt' else v).z), st
 
     def bi_is_none(self, e, st):
         v = self.ev1(e.args[0], st)
@@ -353,7 +369,10 @@ class CallMixin:
             return
         if k == 'text':
             for (vs, kw), s in self.ev_args(e, st):
-                yield self.text_method(recv, attr, vs, s, e), s
+                c = self.reg.contracts.get('text.%s/%d' % (attr, len(vs)))
+                if c is None:
+                    _unsup('text method %s/%d has no builtin contract' % (attr, len(vs)), e)
+                yield from self.apply_contract(c, [recv] + vs, kw, s, e)
             return
         _unsup('method %s on %r' % (attr, recv.ty), e)
 
@@ -467,6 +486,18 @@ class CallMixin:
         st.sset(r, sort_of(elem), z3.K(sort_of(elem), z3.BoolVal(False)))
         st.setH(key_card(), z3.Store(st.H(key_card()), r, z3.IntVal(0)))
         yield SV(TSet(elem), r), st
+
+    def ev_Set(self, e, st):
+        for vs, s in self.ev_many(e.elts, st):
+            elem = self.join_types([v.ty for v in vs], e)
+            es = sort_of(elem)
+            mem = z3.K(es, z3.BoolVal(False))
+            for v in vs:
+                mem = z3.Store(mem, self.coerce(v, elem, s).z, True)
+            r = s.new_ref('setlit')
+            s.sset(r, es, mem)
+            s.setH(key_card(), z3.Store(s.H(key_card()), r, z3.IntVal(len(vs)) if len(vs) <= 1 else fresh('card', I)))
+            yield SV(TSet(elem), r), s
 
     def ev_Dict(self, e, st):
         if e.keys:
@@ -601,11 +632,31 @@ class CallMixin:
 
     def call_value(self, fv, e, st):
         """call of a first-class value (callback): uninterpreted, effect-free on the modelled heap unless the contract says otherwise"""
-        hook = self.c.ghost.get('call@%d' % e.lineno)
-        if hook is not None:
-            yield from hook(self, fv, e, st)
-            return
-        _unsup('call of a value (callback) without ghost hook call@%d' % e.lineno, e)
+        key = 'callv:' + self.call_ordinal(e)
+        model = self.c.ghost.get(key)
+        if model is None:
+            _unsup('call of a first-class value without a callback model (ghost %r)' % key, e)
+        # callback model: dict(returns=type, modifies=[arg indexes], assumes=[spec over arg0.., result, old(...)])
+        for (vs, kw), s in self.ev_args(e, st):
+            pre = s.copy()
+            mods = [vs[i] for i in model.get('modifies', [])]
+            if mods:
+                for mv in mods:
+                    self.check_write(s, mv.z, e, 'callback')
+                self.havoc_after_call(s, pre, mods)
+            from .ty import parse_type as _pt
+            res = fresh_sv('cb', _pt(model.get('returns', 'any')))
+            self.assume_typed(res, s, depth=0)
+            env = dict(s.env)
+            for i, v in enumerate(vs):
+                env['arg%d' % i] = v
+            env['fn'] = fv
+            for a in model.get('assumes', []):
+                self.assume_spec(a, s, env=env, old=pre, result=res)
+            for E in model.get('raises', []):
+                ex = s.copy()
+                self.do_raise(E, None, ex, e)
+            yield res, s
 
     # ------------------------------------------------------------------ constructors
     def construct(self, cname, e, st):
@@ -635,9 +686,21 @@ class CallMixin:
                 _unsup('unknown keyword %s for %s' % (k, c.target), node)
             env[k] = v if isinstance(v, SeqV) else self.coerce(v, pt, st)
         defaults = c.ghost.get('defaults', {})
+        gargs = self.c.ghost.get('args:' + self.call_ordinal(node), {}) if (node is not None and hasattr(self, 'call_ordinal') and isinstance(node, ast.Call)) else {}
         for pn, pt in params:
             if pn not in env:
-                if pn in defaults:
+                if pn in c.ghost_params:
+                    # ghost argument: explicit spec expression from the caller's contract, else the caller's variable of the same name
+                    if pn in gargs:
+                        v, sides = self.spec(gargs[pn], st)
+                        st.assume(*sides)
+                        env[pn] = v if isinstance(v, SeqV) else self.coerce(v, pt, st)
+                    elif pn in st.env:
+                        v = st.env[pn]
+                        env[pn] = v if isinstance(v, SeqV) else self.coerce(v, pt, st)
+                    else:
+                        _unsup('no ghost argument %s for call to %s (%s)' % (pn, c.target, self.call_ordinal(node) if isinstance(node, ast.Call) else '?'), node)
+                elif pn in defaults:
                     env[pn] = self.coerce(self.const(defaults[pn]), pt, st)
                 else:
                     _unsup('missing argument %s for %s' % (pn, c.target), node)
@@ -678,6 +741,7 @@ class CallMixin:
             na = fresh('H_alloc', post.H(key_alloc()).sort())
             post.assume(z3.ForAll([r], z3.Implies(z3.Select(pre.H(key_alloc()), r), z3.Select(na, r)), patterns=[z3.Select(na, r)]))
             post.setH(key_alloc(), na)
+        post.havocked = True
         # 3. exceptional exits
         if not self.specmode:
             for E, conds in c.raises.items():
@@ -706,12 +770,34 @@ class CallMixin:
             self.assume_spec(en, post, env=env, old=pre, result=res, out=res if c.generator is not None else None)
         yield res, post
 
+    def keys_of(self, v):
+        """heap components that hold state of the object denoted by v (by its static type)"""
+        from .state import _key_sorts
+        if isinstance(v, SeqV):
+            return []
+        t = v.ty.args[0] if v.ty.kind == 'opt' else v.ty
+        if t.kind == 'obj':
+            cls = set(self.reg.mro(t.args[0])) | set(self.reg.subclasses(t.args[0]))
+            for c in list(cls):
+                cls |= set(self.reg.mro(c))
+            return [k for k in _key_sorts if k[0] == 'fld' and k[1] in cls]
+        if t.kind == 'list':
+            return [k for k in _key_sorts if k[0] in ('len', 'arr')]
+        if t.kind in ('dict', 'set'):
+            return [k for k in _key_sorts if k[0] in ('dom', 'val', 'mem', 'card', 'ord')]
+        return list(_key_sorts)
+
     def havoc_after_call(self, post, pre, mods):
         from .state import _key_sorts, key_sort
         r = z3.Const('r!fc', Ref)
         notmod = [r != m.z for m in mods if not isinstance(m, SeqV)]
         pre_alloc = pre.H(key_alloc())
-        for key in list(_key_sorts.keys()):
+        keys = []
+        for m in mods:
+            for k in self.keys_of(m):
+                if k not in keys:
+                    keys.append(k)
+        for key in keys:
             if key == ('alloc',):
                 continue
             old = pre.H(key)
@@ -722,3 +808,4 @@ class CallMixin:
         na = fresh('H_alloc', pre_alloc.sort())
         post.assume(z3.ForAll([r], z3.Implies(z3.Select(pre_alloc, r), z3.Select(na, r)), patterns=[z3.Select(na, r)]))
         post.setH(key_alloc(), na)
+        post.havocked = True
